@@ -82,4 +82,47 @@ PROPS = {
                       "the pipeline model (C05/C06). Collector histories with SetMetadata at every position are explored by the hist stream of C07.",
         "assumptions": [],
     },
+    "C07": {
+        "streams": ["hist"],
+        "rule": "hist: every history of length <= 3 (thorough: 5) over {Add a, Add a', Add unreadable, Resolve, Reset, Flush, SetMetadata, Info} x "
+                "{base, batch, dynamic, streaming, streamingDynamic} x N in {1,2,3}; random histories of 20-120 operations over random schemas incl. the "
+                "writer collector. After every operation of a short history (at the end of a long one): decode(writer + Resolve) = accepted since Reset, "
+                "Info = pending, Resolve repeatable, rejected Add changes nothing, chunk size bounds. Distinct = distinct history line.",
+        "level_text": "Theorems (Props/C07.lean) over all operation lists: base collector holds/renders exactly the samples accepted since the last Reset "
+                      "(base_faithful_log), never more than capacity, Info = held samples, rejected Add is a no-op, Reset discards everything; batch collector: "
+                      "accepted Add appends exactly that sample, rejected Add is a no-op, every chunk <= N and every chunk but the last = N for every sequence of Adds.",
+        "level_note": "Dynamic and streaming collectors are compositions of the proved components (their one-step laws are in C08/C09); their whole-history behaviour, "
+                      "wrapper stacking and the decode step (C01) are covered by the correspondence run, not by a composed theorem. The sampling collector depends on "
+                      "the wall clock and is not modelled.",
+        "assumptions": ["chunk size N >= 1"],
+    },
+    "C08": {
+        "streams": ["schema"],
+        "rule": "schema: every sequence of length 2..4 (thorough: 5) over a pool of 8 schemas (added/removed/renamed/reordered/nested fields, the pair "
+                "{a:{b},c} / {a,b:{c}}, a type-only change) x {dynamic, streamingDynamic, writer, batch, base, streaming} x N in {1,2,3,10}; random longer "
+                "sequences. Oracle: schema-aware collectors accept everything and decode to the input; others never store a sample under another metric "
+                "count/type; chunk boundaries only at change points and capacity. Distinct = distinct history line.",
+        "level_text": "Theorems (Props/C08.lean): schema_key_injective — equal hash input implies equal lists of full metric keys for all documents with C-string "
+                      "keys (the lemma the schema-aware collectors rest on; FNV is external); unseparated_keys_collide — the witness that the unrepaired hash input "
+                      "was not injective (F10); one-step laws of the dynamic collector (same schema continues, change splits + is accepted + updates the schema, F8); "
+                      "non-schema-aware collectors refuse a differing metric count/types and stay unchanged; stored rows have the chunk's width.",
+        "level_note": "FNV-64 collisions are outside the model (hash input is compared). Whole-history chunk boundaries for the streaming-dynamic and writer collectors "
+                      "are decided by the correspondence run (F9/F16 were found that way).",
+        "assumptions": ["keys are C strings (no NUL), no '.' and not purely numeric for the correspondence pools", "FNV-64 injective on the inputs hashed"],
+    },
+    "C09": {
+        "streams": ["crash", "fault"],
+        "rule": "crash: every byte offset 0..len of what streaming collectors wrote (streams <= 4 KiB, with metadata and schema changes) as a crash point, in an "
+                "isolated child: error iff the offset is inside a document, exactly the contained chunks delivered. fault: every placement of one (and two) failing "
+                "writes (error, short with error, short without error) among the first 4 (thorough: 6) writes x {streaming, streamingDynamic, writer} x N in {1,2,3} "
+                "x 4 operation scripts; oracle: failing op reports an error, decode(successful writes + Resolve) = accepted. Distinct = distinct case line.",
+        "level_text": "Theorems (Props/C09.lean) for every framed stream and every byte offset: a prefix ending at a document boundary decodes to exactly the fold over the "
+                      "documents inside it; a prefix ending inside a document reports an error and still delivers the chunks before the cut; serialised documents are "
+                      "framed; a failing or short write makes the flush fail and leaves all pending samples, a successful one moves them to the log exactly once; an Add "
+                      "whose implicit flush fails is rejected without touching the collector.",
+        "level_note": "The durability bound N*floor((k-1)/N) and exactly-once recovery over whole fault scripts are checked by the oracle on every case of the hist/fault "
+                      "streams; the theorems give the one-step laws they follow from. A short write leaves half a document in the byte log: recovery is stated over the "
+                      "fully successful writes.",
+        "assumptions": ["documents shorter than 2^31 bytes"],
+    },
 }
